@@ -73,6 +73,19 @@ Theorem C13_delegated_debits_exact :
               before = balance_before_entry entries g a final.
 Proof. exact delegated_debits_exact. Qed.
 
+(* the balance of a delegated account at its first protected debit is at least its balance at the
+   checkpoint, less the transaction's own top-level value when that root transfer precedes it
+   (no BalanceChange of the account in between: fee deduction precedes the checkpoint,
+   reimbursement follows execution) - the abstraction Funding.v makes of one transaction *)
+Theorem C13_first_protected_lower_bound :
+  forall t st es s tr root_pending j a,
+  wf_trace s es tr ->
+  first_protected t st es (root_pos t es root_pending) j a ->
+  is_delegated st a = true ->
+  (forall k e, (k < j)%nat -> nth_opt es k = Some e -> is_change_of a e = false) ->
+  s a <= nth j (s :: tr) s a + (if root_pending then value t else 0).
+Proof. exact first_protected_lower_bound. Qed.
+
 (* ------------------------------------------------------------------ the rule *)
 
 Theorem C13_violation_iff :
@@ -170,6 +183,7 @@ Print Assumptions C13_checkpoint_revert_exact.
 Print Assumptions C13_candidates_exact.
 Print Assumptions C13_candidates_unique.
 Print Assumptions C13_delegated_debits_exact.
+Print Assumptions C13_first_protected_lower_bound.
 Print Assumptions C13_violation_iff.
 Print Assumptions C13_violation_order_insensitive.
 Print Assumptions C13_reserve_violation_iff.
